@@ -81,8 +81,15 @@ for r in sorted((V / "seeded").glob("*/result.json")):
         viol = [l for l in c.get("lines", []) if l.startswith("VIOLATION")]
         kind = ("failing input" if any("no-failing-input-found" not in l for l in viol) else
                 ("no-failing-input-found" if viol else "NOT DETECTED"))
+        if r.parent.name[-1] in "mnqr" and len(r.parent.name) == 5:  # rounds 7 and 9: behaviour-preserving refactors
+            kind = {"NOT DETECTED": "exit 0 (refactor: the intended outcome)",
+                    "no-failing-input-found": "no-failing-input-found (refactor)",
+                    "failing input": "FALSE ALARM (refactor reported with an input)"}[kind]
         rows.append(f"| {r.parent.name} | {pid} | {kind} | {c.get('wall_s')} s | {str(meta.get('summary', ''))[:160].replace('|', '/')} |")
 out.append("### 14.1 Latest recorded run per seed\n")
+out.append("Suffixes m, n, q, r are the behaviour-preserving refactors of rounds 7 and 9 (intended outcome: exit 0); "
+           "all other suffixes are regressions (intended outcome: a failing input). A seed whose patch no longer "
+           "applies to the repaired /repo keeps its last recorded run.\n")
 out.append("| seed | check | outcome | wall | what the seeded change does |")
 out.append("|---|---|---|---|---|")
 out += rows
